@@ -1,7 +1,7 @@
 (** C38 — main statements: what holds for every schedule, the two refutations
     with their witness schedules, and the guarded (partial) versions. *)
 From Coq Require Import List ZArith NArith Bool Lia Arith.
-From C33 Require Import Lib.Harness C38.Model C38.Spec C38.Proofs.
+From C33 Require Import Lib.Harness C38.Model C38.Spec C38.Witness C38.Proofs.
 Import ListNotations.
 Open Scope Z_scope.
 
@@ -68,20 +68,6 @@ Definition observed_unlocked_full : Prop :=
 Definition secret_unlock_before_full : Prop :=
   forall sched, obs_ok false (trace (reach sched)) = true.
 
-Definition pwA : pw := [97; 98; 99; 100; 49; 50; 51; 52]%N.   (* "abcd1234" *)
-Definition pwB : pw := [97; 98; 99; 100; 49; 50; 51; 53]%N.
-Definition pwC : pw := [97; 98; 99; 100; 49; 50; 51; 54]%N.
-
-Definition steps (i n : nat) : list sched_item := repeat (SStep i) n.
-
-(** witness 1: seed saved, wallet locked.  A password change with a WRONG old
-    password is between its CAS and its restore when IsWalletLocked is asked. *)
-Definition sched_window : list sched_item :=
-  [SSpawn (QSaveSeed pwA)] ++ steps 0 3
-  ++ [SSpawn (QSetPasswd pwB pwC)] ++ steps 1 4
-  ++ [SSpawn QIsLocked] ++ steps 2 1
-  ++ steps 1 3.
-
 Lemma window_witness :
   let g := reach sched_window in
   result_of g 0 = Some ROk
@@ -98,19 +84,6 @@ Proof.
   pose proof window_witness as W. cbv zeta in W. destruct W as (_ & _ & _ & _ & _ & W).
   rewrite H in W. discriminate.
 Qed.
-
-(** witness 2: wallet legitimately unlocked.  SetPasswd (wrong old password)
-    has loaded the flag (0) when ProcWalletLock runs to completion; SetPasswd's
-    CAS(1->0) then undoes the lock, and its restore CAS(0->0) changes nothing:
-    the wallet stays unlocked after a successful lock, and a later request
-    passes the flag test under the mutex. *)
-Definition sched_lost_lock : list sched_item :=
-  [SSpawn (QSaveSeed pwA)] ++ steps 0 3
-  ++ [SSpawn (QUnlock pwA 0 false)] ++ steps 1 5
-  ++ [SSpawn (QSetPasswd pwB pwC)] ++ steps 2 4
-  ++ [SSpawn QLock] ++ steps 3 2
-  ++ steps 2 4
-  ++ [SSpawn (QSecret (KSeed pwA))] ++ steps 4 5.
 
 Lemma lost_lock_witness :
   let g := reach sched_lost_lock in
